@@ -55,14 +55,13 @@ Definition use_grouping (o : options) (a : N) : bool :=
   negb (is_empty (o_sep o)) &&
   match o_thr o with O => 1 <=? a | S t => 10 ^ N.of_nat t <=? a end.
 
-(* CustomFormat::builder().separator(s).build() fails for more than 8 bytes
-   (num_format MAX_SEP_LEN); number.rs then falls back to a format without
-   grouping (unwrap_or_else) *)
-Definition sep_fits (o : options) : bool := Nat.leb (String.length (o_sep o)) 8.
-
+(* num_format groups with the one-byte placeholder "," (its CustomFormat accepts at
+   most 8 bytes), then number.rs substitutes the configured separator:
+   formatted.replace(',', &options.digit_separator) — digits and "-" contain no comma,
+   so the result is the grouping with the configured separator, whatever its length *)
 Definition fmt_int (o : options) (z : Z) : outcome string :=
   let a := Z.abs_N z in
-  let body := if sep_fits o && use_grouping o a then grp (o_sep o) (dec_digits a)
+  let body := if use_grouping o a then grp (o_sep o) (dec_digits a)
               else show_digits (dec_digits a) in
   Out (if (z <? 0)%Z then String "-"%char body else body).
 
